@@ -486,3 +486,5 @@ def run(ctx):
                        "sparse/dense/ValueError decision; leg C: 67 ufuncs, 14 operators, 8 methods, where x 9 dtypes x COO/GCXS/DOK/scipy/ndarray/scalar "
                        "vs NumPy, and COO.broadcast_to / sparse.broadcast_to vs np.broadcast_to over the same three regions (ValueError wherever NumPy raises); "
                        "non-trivial = at least one sparse operand; distinct by content hash")
+    import extra_ops  # operation tables closing the measured coverage gaps (tools/coverage_audit.py; coverage/API_COVERAGE.md)
+    extra_ops.run(ctx, PID)
